@@ -6,6 +6,7 @@
 From Via Require Import M_Char M_Parse M_Receive P_Parse.
 From Via Require Import P_Frag P_Term.
 From Via Require Import M_Imp M_Loop M_Hdr M_Msg M_Chunk Gen_Parse P_Imp P_Loop P_Hdr P_Msg P_C06b P_Chunk.
+From Via Require Import M_Query M_Recv P_C05 P_Recv.
 Local Open Scope N_scope.
 
 Theorem C01_request_line_fragments : forall L a r b, rl_valid r = false ->
@@ -328,3 +329,17 @@ Theorem C01_chunk_reset_is_the_source : forall L fuel k inp rq rx nx,
 Proof. exact rc_clear_is_the_source. Qed.
 Print Assumptions C01_request_reset_is_the_source.
 Print Assumptions C01_chunk_reset_is_the_source.
+
+(* request_receiver::receive, the function whose fragmentation invariance this file proves, is the translated source
+   (see Properties_C02.v for what the statement says) *)
+Theorem C01_receive_is_the_source : forall cfg v buf fuel,
+  body_inv v ->
+  hd_ok (rq_headers (rv_req v)) -> rc_inv (c_lim cfg) (rv_chunk v) -> hd_ok (rc_trailers (rv_chunk v)) ->
+  small (ck_max (rc_hdr (rv_chunk v))) -> small (c_max_content cfg) -> small (nlen (rv_body v)) ->
+  (length buf + 2 <= fuel)%nat ->
+  rrun (rl_lim (c_lim cfg)) (fl_lim (c_lim cfg)) (hd_lim (c_lim cfg)) (ck_lim (c_lim cfg)) (rcode_of (c_lim cfg))
+       (c_max_content cfg) (c_translate_head cfg) (c_concat cfg) rv_clear_src fuel rv_receive_src (rv_store v) buf =
+  (let '(v', rest, r) := receive cfg v buf in
+   match rx_of r with Some c => Some (c, rv_store v', rest) | None => None end).
+Proof. exact receive_is_the_source. Qed.
+Print Assumptions C01_receive_is_the_source.
